@@ -16,14 +16,41 @@ import (
 	"time"
 
 	proto "github.com/kubewharf/kubebrain-client/api/v2rpc"
+	"go.etcd.io/etcd/api/v3/etcdserverpb"
 
 	"github.com/kubewharf/kubebrain/pkg/backend/coder"
+	"github.com/kubewharf/kubebrain/pkg/server/etcd"
+	"github.com/kubewharf/kubebrain/pkg/server/service/etcdproxy"
+	"github.com/kubewharf/kubebrain/pkg/server/service/leader"
 	"github.com/kubewharf/kubebrain/pkg/storage"
 
 	"kbverif/lib"
 )
 
 var cd = coder.NewNormalCoder()
+
+// leader stub for the etcd front end (as in harness/cmd/c16): this node is the leader, no proxy, no revision sync
+type nopSyncer struct{}
+
+func (nopSyncer) SyncReadRevision() error { return nil }
+func (nopSyncer) Close() error            { return nil }
+
+type peers struct {
+	*leader.Stub
+	nopSyncer
+	etcdproxy.EtcdProxy
+}
+
+// etcdSrv is the etcd RPC server over the backend of the history being run
+var etcdSrv *etcd.RPCServer
+
+func coqEtcdKvs(resp *etcdserverpb.RangeResponse) string {
+	xs := make([]string, len(resp.Kvs))
+	for i, kv := range resp.Kvs {
+		xs[i] = "(" + lib.Bytes(kv.Key) + ", " + lib.Bytes(kv.Value) + ", " + lib.N(uint64(kv.ModRevision)) + ")"
+	}
+	return lib.List(xs)
+}
 
 type read struct {
 	Kind  string // get | list | count | stream
@@ -66,6 +93,8 @@ func doRead(n *lib.RSNode, r read) (out readOut) {
 	defer func() {
 		if p := recover(); p != nil {
 			switch r.Kind {
+			case "etcd":
+				out = readOut{coq: lib.App("QEtcd", lib.Bytes(r.A), lib.Bytes(r.B), lib.N(r.Rev), lib.Z(r.Limit), "EPanic"), outcome: "etcd-panic"}
 			case "stream":
 				out = readOut{coq: lib.App("QStream", lib.Bytes(r.A), lib.Bytes(r.B), lib.N(r.Rev), "[]"), outcome: "stream-panic"}
 			case "get":
@@ -78,6 +107,19 @@ func doRead(n *lib.RSNode, r read) (out readOut) {
 		}
 	}()
 	switch r.Kind {
+	case "etcd":
+		resp, err := etcdSrv.Range(ctx, &etcdserverpb.RangeRequest{Key: r.A, RangeEnd: r.B, Revision: int64(r.Rev), Limit: r.Limit})
+		if err != nil {
+			return readOut{coq: lib.App("QEtcd", lib.Bytes(r.A), lib.Bytes(r.B), lib.N(r.Rev), lib.Z(r.Limit), "EErr"), outcome: "etcd-err"}
+		}
+		oc := "etcd-ok"
+		if resp.More {
+			oc = "etcd-more"
+		} else if r.Limit > 0 && int64(len(resp.Kvs)) == r.Limit {
+			oc = "etcd-exactly-limit"
+		}
+		return readOut{coq: lib.App("QEtcd", lib.Bytes(r.A), lib.Bytes(r.B), lib.N(r.Rev), lib.Z(r.Limit),
+			lib.App("ERange", lib.N(uint64(resp.Header.Revision)), coqEtcdKvs(resp), lib.Bool(resp.More), lib.N(uint64(resp.Count)))), outcome: oc, kvs: len(resp.Kvs)}
 	case "stream":
 		ch, err := n.B.ListByStream(ctx, cd.EncodeObjectKey(r.A, 0), cd.EncodeObjectKey(r.B, 0), r.Rev)
 		if err != nil {
@@ -175,6 +217,8 @@ type hist struct {
 	shuffle bool
 	// allRevs: read at every revision from the base to the current one
 	allRevs bool
+	// etcdAll: the whole range through the etcd Range API with every limit 0..n+1 at every read revision
+	etcdAll bool
 }
 
 func genHist(r *lib.Rand) hist {
@@ -290,6 +334,14 @@ func genReads(r *lib.Rand, h hist, ops []lib.RSOp, cur uint64, quick bool) []rea
 			}
 			for _, j := range p[:nlim] {
 				reads = append(reads, read{Kind: "list", A: a, B: b, Rev: rev, Limit: limits[j]})
+				if len(b) > 0 && r.Chance(1, 3) { // the same read through the etcd front end (RangeEnd empty would be a Get)
+					reads = append(reads, read{Kind: "etcd", A: a, B: b, Rev: rev, Limit: limits[j]})
+				}
+			}
+			if h.etcdAll && i == 0 {
+				for l := int64(0); l <= int64(len(h.keys))+1; l++ {
+					reads = append(reads, read{Kind: "etcd", A: a, B: b, Rev: rev, Limit: l})
+				}
 			}
 			if len(h.borders) > 0 { // the partitioned scan is only used without a limit; Count reads at cur only
 				reads = append(reads, read{Kind: "list", A: a, B: b, Rev: rev, Limit: 0})
@@ -465,6 +517,7 @@ func runHist(engine, scratch string, h hist, rr *lib.Rand, kind string, quick, f
 	n := lib.NewRSNode(kv, "c03")
 	defer lib.RSRetire()
 	b := n.B
+	etcdSrv = etcd.New(b, &lib.NopMetrics{}, &peers{Stub: &leader.Stub{ElectionInfo: leader.ElectionInfo{LeaderAddress: "127.0.0.1:0", IsLeader: true}}, EtcdProxy: etcdproxy.NewDisabledEtcdProxy()})
 	jsonCase := map[string]interface{}{"engine": engine, "keys": h.keys, "window": h.window}
 	if len(h.borders) > 0 {
 		var hb []string
@@ -677,13 +730,16 @@ func corpus() []hist {
 		// ListByStream) must agree with the single-worker paths (Get, limited List) on the same snapshot
 		{keys: []string{"/r/a", "/r/a-b", "/r/a/b", "/r/ab"},
 			ops1: []lib.RSOp{c("/r/a", x), c("/r/a-b", x), c("/r/a/b", []byte("1")), c("/r/ab", x), u("/r/a/b", []byte("2"), 103), u("/r/a/b", []byte("3"), 105)},
-			ops2: []lib.RSOp{u("/r/a", []byte("x2"), 101)}, compact: math.MaxUint64, allRevs: true,
+			ops2: []lib.RSOp{u("/r/a", []byte("x2"), 101)}, compact: math.MaxUint64, allRevs: true, etcdAll: true,
 			borders: [][]byte{cd.EncodeObjectKey([]byte("/r/a/b"), 105), cd.EncodeObjectKey([]byte("/r/aa"), 0)}},
 		// the same, pieces listed out of key order, border between two versions (synthetic revision 104), compaction
 		{keys: []string{"/r/a", "/r/a-b", "/r/a/b", "/r/ab"},
 			ops1: []lib.RSOp{c("/r/a", x), c("/r/a-b", x), c("/r/a/b", []byte("1")), c("/r/ab", x), u("/r/a/b", []byte("2"), 103), u("/r/a/b", []byte("3"), 105)},
 			ops2: []lib.RSOp{d("/r/a-b", 0)}, compact: 104, allRevs: true, shuffle: true, window: true,
 			borders: [][]byte{cd.EncodeObjectKey([]byte("/r/a/b"), 104)}},
+		// the etcd Range API at every revision with every limit 0..n+1 (seeded change C03-6: More when exactly `limit` keys exist)
+		{keys: []string{"/r/a", "/r/ab", "/r/b"}, ops1: []lib.RSOp{c("/r/a", x), c("/r/ab", x), c("/r/b", x), d("/r/ab", 0), u("/r/a", []byte("x2"), 101)},
+			ops2: []lib.RSOp{c("/r/ab", x)}, compact: math.MaxUint64, allRevs: true, etcdAll: true},
 		// delete, compaction above the delete, re-creation
 		{keys: []string{"/r/a", "/r/b"}, ops1: []lib.RSOp{c("/r/a", x), c("/r/b", x), d("/r/a", 101), u("/r/b", []byte("b2"), 102)}, ops2: []lib.RSOp{c("/r/a", []byte("back")), d("/r/b", 0)}, compact: 104},
 	}
